@@ -3,7 +3,7 @@
 N=$1; shift
 cd /verif
 git -C /repo diff --quiet || { echo "/repo dirty"; exit 2; }
-git -C /repo apply seeded/$N/patch.diff || { echo "patch does not apply"; exit 2; }
+git -C /repo apply /verif/seeded/$N/patch.diff || { echo "patch does not apply"; exit 2; }
 for P in "$@"; do
   ./check $P --tier ${TIER:-quick} > /tmp/seedrun_${N}_$P.log 2>&1; rc=$?
   echo "seed=$N check=$P tier=${TIER:-quick} exit=$rc $(grep -c '^VIOLATION' /tmp/seedrun_${N}_$P.log) violation lines" | tee -a seeded/$N/detect.log
